@@ -219,4 +219,180 @@ Section Laws.
         now rewrite orb_false_r in M.
     - unfold mk_union. rewrite !flat_map_flatten_id by assumption. apply rr_union. exact Hseq.
   Qed.
+
+  (* ---- the same with covers restricted to reachable alternatives (unreachable ones are
+     dropped by unite_values unless nothing else is left): needed for associativity ---- *)
+  Definition covers_r (M1 M2 : list val) : Prop :=
+    forall x, In x M1 -> is_unreachable x = false -> mem_keys E M2 x = true.
+
+  Lemma dedup_covers_r : forall M1 M2,
+    (forall x, In x M1 -> In x S) -> (forall x, In x M2 -> In x S) ->
+    covers_r M1 M2 -> covers_r (dedup E M1) (dedup E M2).
+  Proof.
+    intros M1 M2 S1 S2 C x Hx Hu. apply dedup_subset in Hx.
+    specialize (C x Hx Hu). apply mem_keys_true in C. destruct C as [k [Hk Ekx]].
+    assert (M : mem_keys E (dedup E M2) k = true) by (apply dedup_acc_cover; auto).
+    apply mem_keys_true in M. destruct M as [k' [Hk' Ek'k]].
+    apply mem_keys_true. exists k'. split; auto.
+    apply (Htrans k' k x); auto. apply S2. now apply dedup_subset in Hk'.
+  Qed.
+
+  Lemma filter_covers_r : forall K1 K2, covers_r K1 K2 -> covers (filter reachable K1) (filter reachable K2).
+  Proof.
+    intros K1 K2 C x Hx. apply filter_In in Hx. destruct Hx as [Hx R].
+    unfold reachable in R. apply negb_true_iff in R.
+    specialize (C x Hx R). apply mem_keys_true in C. destruct C as [k [Hk Ekx]].
+    apply mem_keys_true. exists k. split; auto. apply filter_In. split; auto.
+    unfold reachable. now rewrite (Hunr _ _ Ekx), R.
+  Qed.
+
+  Lemma norm_nil_all_unreachable : forall l,
+    (forall x, In x (members l) -> In x S) -> norm E l = [] ->
+    forall x, In x (members l) -> is_unreachable x = true.
+  Proof.
+    intros l SM HN x Hx.
+    assert (M : mem_keys E (dedup E (members l)) x = true) by (apply dedup_acc_cover; auto).
+    apply mem_keys_true in M. destruct M as [k [Hk Ekx]].
+    destruct (is_unreachable x) eqn:U; auto. exfalso.
+    assert (In k (norm E l)).
+    { unfold norm. apply filter_In. split; auto. unfold reachable. now rewrite (Hunr _ _ Ekx), U. }
+    rewrite HN in H. destruct H.
+  Qed.
+
+  Lemma existsb_unr_dedup : forall M,
+    (forall x, In x M -> In x S) -> (forall x, In x M -> is_unreachable x = true) ->
+    existsb is_unreachable (dedup E M) = match M with [] => false | _ => true end.
+  Proof.
+    intros M SM HU. destruct M as [|a M]; [reflexivity|].
+    assert (Ma : mem_keys E (dedup E (a :: M)) a = true).
+    { apply dedup_acc_cover; [apply Hrefl; apply SM; left; auto|left; auto]. }
+    apply mem_keys_true in Ma. destruct Ma as [k [Hk _]].
+    apply existsb_exists. exists k. split; auto. apply HU. now apply dedup_subset in Hk.
+  Qed.
+
+  Lemma unite_with_rel_r : forall l1 l2,
+    (forall x, In x (members l1) -> In x S) -> (forall x, In x (members l2) -> In x S) ->
+    all_nonunion (members l1) -> all_nonunion (members l2) ->
+    covers_r (members l1) (members l2) -> covers_r (members l2) (members l1) ->
+    ((forall x, In x (members l1) -> is_unreachable x = true) ->
+     (forall x, In x (members l2) -> is_unreachable x = true) ->
+     (members l1 = [] <-> members l2 = [])) ->
+    result_rel E (fun x => In x S) (unite_with E l1) (unite_with E l2).
+  Proof.
+    intros l1 l2 S1 S2 U1 U2 C12 C21 Hflag. rewrite !unite_with_unfold.
+    set (K1 := dedup E (members l1)). set (K2 := dedup E (members l2)).
+    assert (CK12 : covers_r K1 K2) by (apply dedup_covers_r; auto).
+    assert (CK21 : covers_r K2 K1) by (apply dedup_covers_r; auto).
+    assert (SK1 : forall x, In x K1 -> In x S) by (intros x Hx; apply S1; now apply dedup_subset in Hx).
+    assert (SK2 : forall x, In x K2 -> In x S) by (intros x Hx; apply S2; now apply dedup_subset in Hx).
+    assert (R12 : covers (norm E l1) (norm E l2)) by exact (filter_covers_r _ _ CK12).
+    assert (R21 : covers (norm E l2) (norm E l1)) by exact (filter_covers_r _ _ CK21).
+    assert (N1 : nodupF E (norm E l1)) by (apply nodupF_filter, dedup_nodup).
+    assert (N2 : nodupF E (norm E l2)) by (apply nodupF_filter, dedup_nodup).
+    assert (SN1 : forall x, In x (norm E l1) -> In x S).
+    { intros x Hx. apply SK1. unfold norm in Hx. apply filter_In in Hx. tauto. }
+    assert (SN2 : forall x, In x (norm E l2) -> In x S).
+    { intros x Hx. apply SK2. unfold norm in Hx. apply filter_In in Hx. tauto. }
+    assert (Hlen : length (norm E l1) = length (norm E l2)).
+    { apply (same_length E (fun x => In x S)); auto. }
+    assert (Hseq : set_eq E (norm E l1) (norm E l2) = true).
+    { apply (set_eq_true E (fun x => In x S)); auto. }
+    assert (UN1 : all_nonunion (norm E l1)).
+    { intros x Hx. apply U1. eapply unite_members_sub; eauto. }
+    assert (UN2 : all_nonunion (norm E l2)).
+    { intros x Hx. apply U2. eapply unite_members_sub; eauto. }
+    destruct (norm E l1) as [|x1 [|y1 r1]] eqn:E1; destruct (norm E l2) as [|x2 [|y2 r2]] eqn:E2;
+      simpl in Hlen; try discriminate.
+    - assert (A1 := norm_nil_all_unreachable l1 S1 E1).
+      assert (A2 := norm_nil_all_unreachable l2 S2 E2).
+      unfold K1, K2. rewrite (existsb_unr_dedup _ S1 A1), (existsb_unr_dedup _ S2 A2).
+      specialize (Hflag A1 A2).
+      destruct (members l1) as [|a1 m1]; destruct (members l2) as [|a2 m2]; try (apply rr_same; auto).
+      + destruct Hflag as [F _]. specialize (F eq_refl). discriminate.
+      + destruct Hflag as [_ F]. specialize (F eq_refl). discriminate.
+    - apply rr_single.
+      + apply SN1. left; auto.
+      + apply SN2. left; auto.
+      + assert (M := R21 x2 (or_introl eq_refl)). unfold mem_keys in M. simpl in M.
+        now rewrite orb_false_r in M.
+      + assert (M := R12 x1 (or_introl eq_refl)). unfold mem_keys in M. simpl in M.
+        now rewrite orb_false_r in M.
+    - unfold mk_union. rewrite !flat_map_flatten_id by assumption. apply rr_union. exact Hseq.
+  Qed.
+
+  (* what the alternatives of a united value are, relative to the operands *)
+  Lemma flatten_unite_sub : forall l x,
+    all_nonunion (members l) ->
+    In x (flatten (unite_with E l)) -> is_unreachable x = false -> In x (members l).
+  Proof.
+    intros l x U Hx Hu. rewrite unite_with_unfold in Hx.
+    assert (UN : all_nonunion (norm E l)) by (intros y Hy; apply U; eapply unite_members_sub; eauto).
+    destruct (norm E l) as [|a [|b r]] eqn:N.
+    - destruct (existsb _ _); simpl in Hx.
+      + destruct Hx as [<-|[]]. discriminate Hu.
+      + destruct Hx.
+    - rewrite flatten_nonunion in Hx by (apply UN; left; auto). destruct Hx as [<-|[]].
+      eapply unite_members_sub. rewrite N. left; auto.
+    - unfold mk_union in Hx. rewrite flat_map_flatten_id in Hx by exact UN. simpl in Hx.
+      eapply unite_members_sub. rewrite N. exact Hx.
+  Qed.
+
+  Lemma flatten_unite_in_S : forall l x,
+    (forall y, In y (members l) -> In y S) -> all_nonunion (members l) ->
+    In x (flatten (unite_with E l)) -> x = VAnyUnreachable \/ In x S.
+  Proof.
+    intros l x SM U Hx. rewrite unite_with_unfold in Hx.
+    assert (UN : all_nonunion (norm E l)) by (intros y Hy; apply U; eapply unite_members_sub; eauto).
+    destruct (norm E l) as [|a [|b r]] eqn:N.
+    - destruct (existsb _ _); simpl in Hx; [destruct Hx as [<-|[]]; auto|destruct Hx].
+    - rewrite flatten_nonunion in Hx by (apply UN; left; auto). destruct Hx as [<-|[]].
+      right. apply SM. eapply unite_members_sub. rewrite N. left; auto.
+    - unfold mk_union in Hx. rewrite flat_map_flatten_id in Hx by exact UN. simpl in Hx.
+      right. apply SM. eapply unite_members_sub. rewrite N. exact Hx.
+  Qed.
+
+  Lemma flatten_unite_nonunion : forall l,
+    all_nonunion (members l) -> all_nonunion (flatten (unite_with E l)).
+  Proof.
+    intros l U. rewrite unite_with_unfold.
+    assert (UN : all_nonunion (norm E l)) by (intros y Hy; apply U; eapply unite_members_sub; eauto).
+    destruct (norm E l) as [|a [|b r]] eqn:N.
+    - destruct (existsb _ _); intros y Hy; simpl in Hy; [destruct Hy as [<-|[]]; reflexivity|destruct Hy].
+    - rewrite flatten_nonunion by (apply UN; left; auto). intros y [<-|[]]. apply UN. left; auto.
+    - unfold mk_union. rewrite flat_map_flatten_id by exact UN. exact UN.
+  Qed.
+
+  Lemma flatten_unite_cover : forall l x,
+    (forall y, In y (members l) -> In y S) -> all_nonunion (members l) ->
+    In x (members l) -> is_unreachable x = false -> mem_keys E (flatten (unite_with E l)) x = true.
+  Proof.
+    intros l x SM U Hx Hu.
+    assert (M : mem_keys E (norm E l) x = true) by (apply unite_members_cover; auto).
+    rewrite unite_with_unfold.
+    assert (UN : all_nonunion (norm E l)) by (intros y Hy; apply U; eapply unite_members_sub; eauto).
+    destruct (norm E l) as [|a [|b r]] eqn:N.
+    - discriminate M.
+    - rewrite flatten_nonunion by (apply UN; left; auto). exact M.
+    - unfold mk_union. rewrite flat_map_flatten_id by exact UN. exact M.
+  Qed.
+
+  (* when every alternative of the united value is unreachable, it is empty iff the operands are *)
+  Lemma flatten_unite_nil : forall l,
+    (forall y, In y (members l) -> In y S) -> all_nonunion (members l) ->
+    (forall x, In x (flatten (unite_with E l)) -> is_unreachable x = true) ->
+    (flatten (unite_with E l) = [] <-> members l = []).
+  Proof.
+    intros l SM U HU.
+    assert (UN : all_nonunion (norm E l)) by (intros y Hy; apply U; eapply unite_members_sub; eauto).
+    assert (HN : norm E l = []).
+    { destruct (norm E l) as [|a r] eqn:N; auto. exfalso.
+      assert (Ha : In a (norm E l)) by (rewrite N; left; auto).
+      destruct (norm_subset E l a Ha) as [_ Hr].
+      assert (Hc := flatten_unite_cover l a SM U (unite_members_sub E l a Ha) Hr).
+      apply mem_keys_true in Hc. destruct Hc as [k [Hk Eka]].
+      specialize (HU k Hk). rewrite (Hunr _ _ Eka), Hr in HU. discriminate. }
+    revert HU. rewrite unite_with_unfold, HN.
+    rewrite (existsb_unr_dedup _ SM (norm_nil_all_unreachable l SM HN)).
+    destruct (members l); simpl; intros _; split; intros H; auto; discriminate.
+  Qed.
 End Laws.
